@@ -98,10 +98,13 @@ def _helper_read_crd(lit: LineIterator) -> tuple:
     atmasses = []
     for i in range(natom):
         line = next(lit)
-        # The coordinates (3F10.5, columns 21-50) and the weighting (F10.5, columns 61-70) are
-        # fixed-width fields, which touch their left neighbours for wide values.
+        # The atom and residue numbers (2I5, columns 1-10), the coordinates (3F10.5, columns
+        # 21-50) and the weighting (F10.5, columns 61-70) are fixed-width fields, which touch
+        # their left neighbours for wide values.
         words = [
-            *line[:20].split(),
+            line[:5],
+            line[5:10],
+            *line[10:20].split(),
             line[20:30],
             line[30:40],
             line[40:50],
